@@ -27,6 +27,8 @@ func main() {
 		filesinkMain(os.Args[2:])
 	case "filesink-child":
 		fsChildMain(os.Args[2:])
+	case "filesink-child-fsize":
+		fsChildFsizeMain(os.Args[2:])
 	case "reentry":
 		reentryMain(os.Args[2:])
 	case "race":
